@@ -18,9 +18,9 @@ import (
 func init() {
 	Register(&Check{
 		Spec: core.Spec{ID: "C22", Level: "exploration",
-			Rule: "case = data set of 8-60 files behind an instrumented DataStore whose Reads sleep 0.2-2 ms (so they overlap) and keep an in-flight gauge; phase A runs 2-32 concurrent queries on one engine with MaxQueryConcurrency in {1,2,3,4,8} and checks max in-flight Reads <= MaxQueryConcurrency; phase B parks 1-8 queries whose consumers never call Next (enough matches to fill their row channels) and requires every other query to complete (bounded progress, stuck detector); under -race with PRNG delays at the tagged schedule points; non-trivial = phase in which >= 2 Reads overlapped or a stalled query was parked with a full row channel; distinct = distinct (data set, concurrency, query count, phase)",
+			Rule:        "case = data set of 8-60 files behind an instrumented DataStore whose Reads sleep 0.2-2 ms (so they overlap) and keep an in-flight gauge; phase A runs 2-32 concurrent queries on one engine with MaxQueryConcurrency in {1,2,3,4,8} and checks max in-flight Reads <= MaxQueryConcurrency; phase B parks 1-8 queries whose consumers never call Next (enough matches to fill their row channels) and requires every other query to complete (bounded progress, stuck detector); under -race with PRNG delays at the tagged schedule points; non-trivial = phase in which >= 2 Reads overlapped or a stalled query was parked with a full row channel; distinct = distinct (data set, concurrency, query count, phase)",
 			Assumptions: []string{"the gauge counts DataStore Read calls in progress on handles opened by queries (no merge or inventory runs during the window)", "bounded progress as in C20"},
-			Floors: map[string]int64{"phaseA_runs": 20, "phaseB_runs": 20, "reads_observed": 2000, "runs_with_overlap": 10}},
+			Floors:      map[string]int64{"phaseA_runs": 20, "phaseB_runs": 20, "reads_observed": 2000, "runs_with_overlap": 10}},
 		Cases:       func(t string) int { return nQueries(t, 32, 800) },
 		Run:         runC22,
 		RaceMatters: true,
